@@ -63,8 +63,9 @@ class HistoryMachine(RuleBasedStateMachine):
     def init(self, data):
         cfg = data.draw(self.CFG, label="cfg")
         self.U = self.draw_universe(data, cfg)
-        self.world = World(cfg, self.N)
-        self.trace = {"cfg": cfg, "n": self.N, "U": list(self.U), "steps": []}
+        shm = data.draw(st.sampled_from([False, False, False, False, True]), label="shared_memory")
+        self.world = World(cfg, self.N, shm=shm)
+        self.trace = {"cfg": cfg, "n": self.N, "U": list(self.U), "shm": shm, "steps": []}
         self.extra_init()
 
     def key(self, ki):
@@ -80,7 +81,7 @@ class HistoryMachine(RuleBasedStateMachine):
             self.check(touched, step)
         except Violation:
             self.failed = True
-            self.HOLDER["case"] = {"cfg": self.trace["cfg"], "n": self.N, "U": list(self.U), "steps": list(self.trace["steps"])}
+            self.HOLDER["case"] = {"cfg": self.trace["cfg"], "n": self.N, "U": list(self.U), "shm": self.trace["shm"], "steps": list(self.trace["steps"])}
             raise
 
     def teardown(self):
@@ -138,7 +139,7 @@ class HistoryMachine(RuleBasedStateMachine):
 def replay_trace(case, checker_factory):
     """Re-execute a recorded trace outside Hypothesis.  checker_factory(world, case) returns
     check(touched, step)."""
-    w = World(case["cfg"], case.get("n", 2))
+    w = World(case["cfg"], case.get("n", 2), shm=case.get("shm", False))
     try:
         check = checker_factory(w, case)
         for step in case["steps"]:
